@@ -775,6 +775,34 @@ def run(ctx):
         distinct=distinct)
 
 
+# ------------------------------------------------------------------------------ C19 adapter
+C19_NO_CROSS = True     # word arrays are given as octets of B_PER_W-bit words: one stream per word size
+
+
+def c19_stream():
+    """(harness, driver, fn(ctx, exe, w) -> op lines, uses_bash) for property C19: the `sf` lines (both editions
+    of all 33 pairs on the same operands) and the comparison family in both editions, generated for the word
+    size w.  Every configuration must print what the Lean driver prints (`r | r` from the IR of the regular
+    edition; the hand models for the comparison family) — under SAFE_FAST both names are the fast edition,
+    the outputs must still agree."""
+    def fn(ctx, exe, w):
+        setw(w)
+        try:
+            cases = corpus_cases() + gen_cmp_cases(ctx, False) + gen_mod_cases(ctx, False)
+            ctx.rng.shuffle(cases)          # C19 thins long streams with a stride: keep every routine represented
+            lines = []
+            for c in cases:
+                lines.append("%s %s %s" % (opn("sf"), c[0], " ".join(c[2])))
+                if ctx.rng.random() < 0.5:
+                    l = to_cmp_line(c[0], c[2], ctx.rng.choice(["safe", "fast"]))
+                    if l:
+                        lines.append(l)
+            return lines
+        finally:
+            setw(64)
+    return ("harness/c14.c", "drv_c14", fn, False)
+
+
 def replay(ctx, path):
     mode, op, nres = None, None, None
     for line in open(path):
@@ -788,10 +816,10 @@ def replay(ctx, path):
     if not op or op == "?":
         print("replay file names a theorem/correspondence, not an input: nothing to execute")
         return 0
-    if mode == "sf":
-        exe = ctx.cc("harness/c14.c", "asan")
-        out, err, rc = ctx.run_lines(exe, ["sf " + op])
-        print("sf %s\n  safe | fast = %s" % (op[:300], out[0] if out else err[-300:]))
+    if mode in ("sf", "sf32"):
+        exe = ctx.cc("harness/c14.c", "asan" if mode == "sf" else "w32")
+        out, err, rc = ctx.run_lines(exe, [mode + " " + op])
+        print("%s %s\n  safe | fast = %s" % (mode, op[:300], out[0] if out else err[-300:]))
         bad = rc != 0 or not out or sf_differs(out[0], nres)
         print("SAFE and FAST %s on the current tree" % ("DISAGREE" if bad else "agree"))
         return 1 if bad else 0
